@@ -186,6 +186,7 @@ func registerIntrinsics(in *Interp) {
 		st := under(site.Value().Type()).(*types.Slice)
 		return AbsSlice{&AbsArr{Len: n, Def: a[1], ElemT: st.Elem()}}
 	}
+	I["vAbsBytes"] = I["vAbsInstrs"]
 	I["vAbsLive"] = func(in *Interp, a []Value, _ ssa.CallInstruction) Value {
 		in.absOf(a[0]).Live = true
 		return nil
